@@ -70,6 +70,9 @@ pub struct Model {
     pub comment: Vec<u8>,
     /// comment in force when finish succeeded
     pub final_comment: Option<Vec<u8>>,
+    /// the entry that was open when a call failed (mode Unknown): it may or may not receive later writes, so its
+    /// content stays predicted only as long as no later non-empty write succeeds
+    pub open_at_failure: Option<usize>,
 }
 
 fn opts_class(o: &FOpts, compressing_call: bool) -> Class {
@@ -113,7 +116,7 @@ fn opts_class(o: &FOpts, compressing_call: bool) -> Class {
 
 impl Model {
     pub fn new() -> Model {
-        Model { mode: Mode::Idle, entries: vec![], pending_extra: vec![], comment: vec![], final_comment: None }
+        Model { mode: Mode::Idle, entries: vec![], pending_extra: vec![], comment: vec![], final_comment: None, open_at_failure: None }
     }
     pub fn hash64(&self) -> u64 {
         let mut h = std::collections::hash_map::DefaultHasher::new();
@@ -165,6 +168,17 @@ impl Model {
             ExtraCentral => self.end_class(),
             _ => Class::MustOk,
         };
+        // a name that does not fit the 16-bit length field: not in C12's list of documented misuse (C02 demands the
+        // refusal); either result here, never a panic
+        let name_len = match call {
+            Call::StartFile { name, .. } | Call::StartAligned { name, .. } | Call::StartExtra { name, .. } | Call::AddSymlink { name, .. } => name.len(),
+            Call::AddDir { name, .. } => dir_name(name).len(),
+            Call::RawCopy { rename: Some(n), .. } => n.len(),
+            _ => 0,
+        };
+        if name_len > 65535 {
+            return Class::Unspecified;
+        }
         match call {
             Call::SetComment(_) => Class::MustOk,
             Call::Write(d) => match self.mode {
@@ -237,6 +251,12 @@ impl Model {
                         self.final_comment = Some(self.comment.clone());
                         self.mode = Finished;
                     }
+                    // bytes were accepted after the failure: they may have gone to the entry that was open then
+                    Call::Write(d) if !d.is_empty() => {
+                        if let Some(e) = self.open_at_failure.and_then(|i| self.entries.get_mut(i)) {
+                            e.content_known = false;
+                        }
+                    }
                     _ => {}
                 }
             }
@@ -251,7 +271,7 @@ impl Model {
                 _ => false,
             };
             if !pure_guard {
-                self.go_unknown();
+                self.go_unknown_after_failure();
             }
             return;
         }
@@ -289,6 +309,22 @@ impl Model {
             e.local_extra = None;
             e.central_extra = None;
         }
+        self.mode = Mode::Unknown;
+    }
+
+    /// A call reported an error the property does not define the aftermath of. Entries whose creation succeeded keep
+    /// their promise ("each file holds exactly the bytes successfully written to it"): the open one loses it only if a
+    /// later write is accepted (handled in `apply`), unless it was still collecting extra data.
+    fn go_unknown_after_failure(&mut self) {
+        let in_extra = self.in_extra();
+        if let Some(e) = self.entries.last_mut() {
+            e.local_extra = None;
+            e.central_extra = None;
+            if in_extra {
+                e.content_known = false;
+            }
+        }
+        self.open_at_failure = if self.entries.is_empty() { None } else { Some(self.entries.len() - 1) };
         self.mode = Mode::Unknown;
     }
 
